@@ -216,6 +216,31 @@ pub type DynStatefulDecoder<S> = StatefulDecoder<DynDecoder<S>, S>;
 /// The initial capacity of the `DicomParser` buffer.
 const PARSER_BUFFER_CAPACITY: usize = 2048;
 
+/// The maximum number of bytes reserved up front for a value.
+/// Beyond this, buffers grow as the data arrives,
+/// so that a bogus length in a malformed data set
+/// does not result in a huge memory allocation.
+const MAX_VALUE_PREALLOCATION: usize = 1 << 20;
+
+/// Read exactly `len` bytes from the source into the given vector
+/// (which is cleared first),
+/// without trusting `len` for the size of the allocation.
+fn read_exact_to_vec<R>(from: &mut R, len: usize, buf: &mut Vec<u8>) -> std::io::Result<()>
+where
+    R: Read,
+{
+    buf.clear();
+    buf.reserve(len.min(MAX_VALUE_PREALLOCATION));
+    let n = from.take(len as u64).read_to_end(buf)?;
+    if n < len {
+        return Err(std::io::Error::new(
+            std::io::ErrorKind::UnexpectedEof,
+            "failed to fill whole buffer",
+        ));
+    }
+    Ok(())
+}
+
 /// Defines a special override for
 /// how text of certain value representations is decoded.
 #[derive(Debug, Default, Copy, Clone, Eq, Hash, PartialEq)]
@@ -438,6 +463,17 @@ where
         Ok(())
     }
 
+    /// Read exactly `len` bytes of value data into the internal buffer.
+    fn fill_buffer(&mut self, len: usize) -> Result<()> {
+        if self.buffer.capacity() > MAX_VALUE_PREALLOCATION {
+            // do not hold on to the memory taken by a large value
+            self.buffer = Vec::with_capacity(PARSER_BUFFER_CAPACITY);
+        }
+        read_exact_to_vec(&mut self.from, len, &mut self.buffer).context(ReadValueDataSnafu {
+            position: self.position,
+        })
+    }
+
     fn require_known_length(&self, header: &DataElementHeader) -> Result<usize> {
         header
             .length()
@@ -475,23 +511,18 @@ where
         let len = self.require_known_length(header)?;
 
         // sequence of 8-bit integers (or arbitrary byte data)
-        let mut buf = smallvec![0u8; len];
-        self.from.read_exact(&mut buf).context(ReadValueDataSnafu {
+        let mut buf = Vec::new();
+        read_exact_to_vec(&mut self.from, len, &mut buf).context(ReadValueDataSnafu {
             position: self.position,
         })?;
         self.position += len as u64;
-        Ok(PrimitiveValue::U8(buf))
+        Ok(PrimitiveValue::U8(buf.into()))
     }
 
     fn read_value_strs(&mut self, header: &DataElementHeader) -> Result<PrimitiveValue> {
         let len = self.require_known_length(header)?;
         // sequence of strings
-        self.buffer.resize_with(len, Default::default);
-        self.from
-            .read_exact(&mut self.buffer)
-            .context(ReadValueDataSnafu {
-                position: self.position,
-            })?;
+        self.fill_buffer(len)?;
 
         let use_charset_declared = match (self.charset_override, header.vr()) {
             (CharacterSetOverride::AnyVr, _) => true,
@@ -529,12 +560,7 @@ where
         let len = self.require_known_length(header)?;
 
         // a single string
-        self.buffer.resize_with(len, Default::default);
-        self.from
-            .read_exact(&mut self.buffer)
-            .context(ReadValueDataSnafu {
-                position: self.position,
-            })?;
+        self.fill_buffer(len)?;
         self.position += len as u64;
         Ok(PrimitiveValue::Str(
             self.text
@@ -550,9 +576,10 @@ where
         let len = self.require_known_length(header)?;
 
         let n = len >> 1;
+        self.fill_buffer(n << 1)?;
         let mut vec = smallvec![0; n];
         self.basic
-            .decode_ss_into(&mut self.from, &mut vec[..])
+            .decode_ss_into(&self.buffer[..], &mut vec[..])
             .context(ReadValueDataSnafu {
                 position: self.position,
             })?;
@@ -566,9 +593,10 @@ where
         let len = self.require_known_length(header)?;
         // sequence of 32-bit floats
         let n = len >> 2;
+        self.fill_buffer(n << 2)?;
         let mut vec = smallvec![0.; n];
         self.basic
-            .decode_fl_into(&mut self.from, &mut vec[..])
+            .decode_fl_into(&self.buffer[..], &mut vec[..])
             .context(ReadValueDataSnafu {
                 position: self.position,
             })?;
@@ -581,12 +609,7 @@ where
         let len = self.require_known_length(header)?;
         // sequence of dates
 
-        self.buffer.resize_with(len, Default::default);
-        self.from
-            .read_exact(&mut self.buffer)
-            .context(ReadValueDataSnafu {
-                position: self.position,
-            })?;
+        self.fill_buffer(len)?;
         let buf = trim_trail_empty_bytes(&self.buffer);
         if buf.is_empty() {
             self.position += len as u64;
@@ -621,12 +644,7 @@ where
         let len = self.require_known_length(header)?;
         // sequence of doubles in text form
 
-        self.buffer.resize_with(len, Default::default);
-        self.from
-            .read_exact(&mut self.buffer)
-            .context(ReadValueDataSnafu {
-                position: self.position,
-            })?;
+        self.fill_buffer(len)?;
         let buf = trim_trail_empty_bytes(&self.buffer);
         if buf.is_empty() {
             self.position += len as u64;
@@ -654,12 +672,7 @@ where
         let len = self.require_known_length(header)?;
         // sequence of datetimes
 
-        self.buffer.resize_with(len, Default::default);
-        self.from
-            .read_exact(&mut self.buffer)
-            .context(ReadValueDataSnafu {
-                position: self.position,
-            })?;
+        self.fill_buffer(len)?;
         let buf = trim_trail_empty_bytes(&self.buffer);
         if buf.is_empty() {
             self.position += len as u64;
@@ -692,12 +705,7 @@ where
     fn read_value_is(&mut self, header: &DataElementHeader) -> Result<PrimitiveValue> {
         let len = self.require_known_length(header)?;
         // sequence of signed integers in text form
-        self.buffer.resize_with(len, Default::default);
-        self.from
-            .read_exact(&mut self.buffer)
-            .context(ReadValueDataSnafu {
-                position: self.position,
-            })?;
+        self.fill_buffer(len)?;
         let buf = trim_trail_empty_bytes(&self.buffer);
         if buf.is_empty() {
             self.position += len as u64;
@@ -725,12 +733,7 @@ where
         let len = self.require_known_length(header)?;
         // sequence of time instances
 
-        self.buffer.resize_with(len, Default::default);
-        self.from
-            .read_exact(&mut self.buffer)
-            .context(ReadValueDataSnafu {
-                position: self.position,
-            })?;
+        self.fill_buffer(len)?;
         let buf = trim_trail_empty_bytes(&self.buffer);
         if buf.is_empty() {
             self.position += len as u64;
@@ -765,9 +768,10 @@ where
         let len = self.require_known_length(header)?;
         // sequence of 64-bit floats
         let n = len >> 3;
+        self.fill_buffer(n << 3)?;
         let mut vec = smallvec![0.; n];
         self.basic
-            .decode_fd_into(&mut self.from, &mut vec[..])
+            .decode_fd_into(&self.buffer[..], &mut vec[..])
             .context(ReadValueDataSnafu {
                 position: self.position,
             })?;
@@ -781,9 +785,10 @@ where
         // sequence of 32-bit unsigned integers
 
         let n = len >> 2;
+        self.fill_buffer(n << 2)?;
         let mut vec = smallvec![0u32; n];
         self.basic
-            .decode_ul_into(&mut self.from, &mut vec[..])
+            .decode_ul_into(&self.buffer[..], &mut vec[..])
             .context(ReadValueDataSnafu {
                 position: self.position,
             })?;
@@ -793,11 +798,12 @@ where
     }
 
     fn read_u32(&mut self, n: usize, vec: &mut Vec<u32>) -> Result<()> {
+        self.fill_buffer(n << 2)?;
         let base = vec.len();
         vec.resize(base + n, 0);
 
         self.basic
-            .decode_ul_into(&mut self.from, &mut vec[base..])
+            .decode_ul_into(&self.buffer[..], &mut vec[base..])
             .context(ReadValueDataSnafu {
                 position: self.position,
             })?;
@@ -810,9 +816,10 @@ where
         // sequence of 16-bit unsigned integers
 
         let n = len >> 1;
+        self.fill_buffer(n << 1)?;
         let mut vec = smallvec![0; n];
         self.basic
-            .decode_us_into(&mut self.from, &mut vec[..])
+            .decode_us_into(&self.buffer[..], &mut vec[..])
             .context(ReadValueDataSnafu {
                 position: self.position,
             })?;
@@ -833,9 +840,10 @@ where
         // sequence of 64-bit unsigned integers
 
         let n = len >> 3;
+        self.fill_buffer(n << 3)?;
         let mut vec = smallvec![0; n];
         self.basic
-            .decode_uv_into(&mut self.from, &mut vec[..])
+            .decode_uv_into(&self.buffer[..], &mut vec[..])
             .context(ReadValueDataSnafu {
                 position: self.position,
             })?;
@@ -849,9 +857,10 @@ where
         // sequence of 32-bit signed integers
 
         let n = len >> 2;
+        self.fill_buffer(n << 2)?;
         let mut vec = smallvec![0; n];
         self.basic
-            .decode_sl_into(&mut self.from, &mut vec[..])
+            .decode_sl_into(&self.buffer[..], &mut vec[..])
             .context(ReadValueDataSnafu {
                 position: self.position,
             })?;
@@ -865,9 +874,10 @@ where
         // sequence of 64-bit signed integers
 
         let n = len >> 3;
+        self.fill_buffer(n << 3)?;
         let mut vec = smallvec![0; n];
         self.basic
-            .decode_sv_into(&mut self.from, &mut vec[..])
+            .decode_sv_into(&self.buffer[..], &mut vec[..])
             .context(ReadValueDataSnafu {
                 position: self.position,
             })?;
